@@ -11,6 +11,12 @@ CHECKS = {
  "C04": dict(level="model_checking", technique="symbolic execution (symtrace/z3): per-path SMT obligation 'value = wire expression (mod p)' for every LinComb object constructed",
              text="Bounded symbolic model checking: every runtime.LinComb constructed during a catalogue program (intermediate and returned), in plain, guarded (g=0/1, nested), and ignore-errors modes, is shown congruent to its linear combination on the recorded hints for all operand values within the bounds.",
              note="Trusted: engine encoding (validated per path), z3, Fermat axiom. Observation of constructed objects through a wrapper of LinComb.__init__ installed from outside (no source change).", ref="5/C04"),
+ "C05": dict(level="model_checking", technique="symbolic execution (symtrace/z3): per-path SMT obligation 'traced value = the same Python expression on plain integers', and 'raising paths do not intersect the documented domain'",
+             text="Bounded symbolic differential check against Python's own operator semantics: on every completed path the traced value equals the plain-integer expression for all operands within the bounds (mod-p congruence by polynomial normal form where products are involved), and no raising path intersects the documented domain. Genuine deviations are listed in known_findings.json with region predicates; anything outside them is a violation.",
+             note="Trusted: engine encoding of Python int operators (validated per path against CPython), z3. Bounds: bitlength 4 (quick) / 4,8,16 (thorough); operands < 2^64 / 2^120; secret exponents and shift counts at n<=8. Python raising where the traced op returns (negative shift count) is recorded as an observation only.", ref="5/C05"),
+ "C06": dict(level="model_checking", technique="exhaustive symbolic path enumeration (symtrace/z3): all feasible completed paths of a program must yield one canonical constraint system",
+             text="Bounded symbolic model checking: the engine forks at every value-dependent Python branch of the traced code, so the set of completed paths (errors on, ignore_errors on invalid inputs, guard 0/1, nested guards) is exhaustive within the bounds; all of them must produce the identical canonical trace (variable counts and order, constraints with coefficients mod p, result wire expressions). Two differing paths yield two concrete inputs that are replayed.",
+             note="Trusted: path feasibility decided by z3 (unknown is never pruned), canonicalisation of linear combinations. Bounds: catalogue programs and depth-2 compositions, bitlength 4 (quick) / 4,8 (thorough).", ref="5/C06"),
 }
 NA_REASON = "check not built yet in this session (design in DESIGN.md section 5); will be claimed once its check exists"
 
